@@ -2142,6 +2142,105 @@ impl HashColumn {
 	}
 }
 
+/// Verification hook (compiled only with `--cfg pdb_verif`): read-only dump of the node forest
+/// of a multitree column.
+#[cfg(pdb_verif)]
+impl HashColumn {
+	/// Every live head slot of every value table of the column, classified as a root (some index
+	/// entry of the current or of a queued older index table resolves to its address) or as a
+	/// node, with its children as decoded by `unpack_node_children`; the entries of the
+	/// ref-count tables (current table first, then the reindex queue) and of the in-memory
+	/// ref-count cache.  Index and ref-count tables are read through the log overlay, the
+	/// slot classification comes from the table files: call on a handle whose logs are enacted.
+	pub fn verif_multitree_dump(&self, log: &Log) -> Result<crate::verif::MultiTreeDump> {
+		let tables = self.tables.read();
+		let reindex = self.reindex.read();
+		// one read lock for the whole dump (the overlays are empty on a quiescent handle)
+		let overlays = log.overlays().read();
+		let overlays = &*overlays;
+		let mut out = crate::verif::MultiTreeDump {
+			has_ref_count_table: tables.ref_count.is_some(),
+			ref_counted: self.ref_counted,
+			append_only: self.append_only,
+			..Default::default()
+		};
+		// address of a value slot -> key prefix recovered from the index entry pointing to it
+		let mut indexed: HashMap<u64, Key> = HashMap::new();
+		let mut sources: Vec<&IndexTable> = vec![&tables.index];
+		for entry in &reindex.queue {
+			if let ReindexEntry::Index(t) = entry {
+				sources.push(t);
+			}
+		}
+		for source in sources {
+			for (c, e) in source.verif_nonempty_entries(overlays)? {
+				let address = e.address(source.id.index_bits());
+				indexed
+					.entry(address.as_u64())
+					.or_insert_with(|| source.recover_key_prefix(c, e));
+			}
+		}
+		let values = self.as_ref(&tables.value);
+		for t in &tables.value {
+			let d = t.verif_dump()?;
+			for (index, kind, _next, _tail) in d.slots.iter() {
+				if *kind != 1 {
+					continue
+				}
+				let address = Address::new(*index, d.tier);
+				if let Some(prefix) = indexed.get(&address.as_u64()) {
+					let mut key = *prefix;
+					let mut rc = 0;
+					let children = match t.get_with_meta(*index, overlays) {
+						Ok(Some((value, count, pk, compressed))) => {
+							key[6..].copy_from_slice(&pk);
+							rc = count;
+							let value = if compressed {
+								self.compression.decompress(&value).ok()
+							} else {
+								Some(value)
+							};
+							value.and_then(|v| unpack_node_children(&v).ok())
+						},
+						_ => None,
+					};
+					out.roots.push((key, address.as_u64(), rc, children));
+				} else {
+					let children = match Column::get_value(
+						TableKeyQuery::Check(&TableKey::NoHash),
+						address,
+						values,
+						overlays,
+					) {
+						Ok(Some((_tier, _rc, value))) => unpack_node_children(&value).ok(),
+						_ => None,
+					};
+					out.nodes.push((address.as_u64(), children));
+				}
+			}
+		}
+		let mut rc_sources: Vec<&RefCountTable> = Vec::new();
+		if let Some(t) = &tables.ref_count {
+			rc_sources.push(t);
+		}
+		for entry in &reindex.queue {
+			if let ReindexEntry::RefCount(t) = entry {
+				rc_sources.push(t);
+			}
+		}
+		for source in rc_sources {
+			out.ref_count_tables
+				.push((source.id.index_bits(), source.verif_nonempty_entries(overlays)?));
+		}
+		if let Some(cache) = &self.ref_count_cache {
+			let mut entries: Vec<(u64, u64)> = cache.read().iter().map(|(a, c)| (*a, *c)).collect();
+			entries.sort();
+			out.ref_count_cache = Some(entries);
+		}
+		Ok(out)
+	}
+}
+
 impl Column {
 	pub fn write_existing_value_plan<K, V: AsRef<[u8]>>(
 		key: &TableKey,
